@@ -125,9 +125,9 @@ fn main() {
             out.flush().unwrap();
             std::process::exit(3);
         }
-        if n % 256 == 0 {
-            out.flush().unwrap();
-        }
+        // every event is on disk before the next case starts: a hard crash
+        // (stack overflow, abort) must not lose the events before it
+        out.flush().unwrap();
     }
     out.flush().unwrap();
     std::fs::remove_file(format!("{}.cur", &args[2])).ok();
